@@ -17,7 +17,7 @@ for n,p in enumerate(ids):
     # strip trailing separators
     props[p]=re.sub(r'\n-{20,}\s*$','',props[p]).rstrip()
     if '\n**As built**' in props[p]: props[p]=props[p][:props[p].index('\n**As built**')].rstrip()
-replaced={p:open('/tmp/dz/%s.md'%p).read().rstrip() for p in ["C06","C12","C13","C18","C19","C20"]}
+replaced={p:open('/verif/tool/dev/design_parts/%s.md'%p).read().rstrip() for p in ["C06","C12","C13","C18","C19","C20"]}
 after_miss={
  "C04":"N7 was added after seeded change C04-2 (zero-window test on the unscaled window) was caught only by C02/W1.",
  "C05":"L6 (timer typestate) was added after seeded change C05-2 was missed.",
@@ -53,10 +53,10 @@ the round-0 reasoning (rule letters R/W/H/N/L/… are unchanged) and end with
 the list of what runs.
 
 '''
-sec6=open('/tmp/dz/sec6.md').read() if os.path.exists('/tmp/dz/sec6.md') else "## 6. Seeded changes and detection matrix\n\n(to be filled)\n\n---------------------------------------------------------------------------\n"
-new=(open('/tmp/dz/head.md').read()+"\n"+sec1.rstrip()+"\n\n---------------------------------------------------------------------------\n\n"
-     +open('/tmp/dz/sec2.md').read()+"\n"+open('/tmp/dz/sec3.md').read()+"\n"+sec4hdr+"\n".join(body)
-     +"\n---------------------------------------------------------------------------\n\n"+open('/tmp/dz/sec5.md').read()+"\n"+sec6+"\n"+open('/tmp/dz/sec7.md').read())
+sec6=open('/verif/tool/dev/design_parts/sec6.md').read() if os.path.exists('/verif/tool/dev/design_parts/sec6.md') else "## 6. Seeded changes and detection matrix\n\n(to be filled)\n\n---------------------------------------------------------------------------\n"
+new=(open('/verif/tool/dev/design_parts/head.md').read()+"\n"+sec1.rstrip()+"\n\n---------------------------------------------------------------------------\n\n"
+     +open('/verif/tool/dev/design_parts/sec2.md').read()+"\n"+open('/verif/tool/dev/design_parts/sec3.md').read()+"\n"+sec4hdr+"\n".join(body)
+     +"\n---------------------------------------------------------------------------\n\n"+open('/verif/tool/dev/design_parts/sec5.md').read()+"\n"+sec6+"\n"+open('/verif/tool/dev/design_parts/sec7.md').read())
 
 fixes=[
  ("four structural necessary conditions; the level note will say that the","four structural necessary conditions; the level note says that the"),
@@ -78,5 +78,5 @@ fixes=[
 for a,b in fixes:
     if a not in new: print("MISSING FIX:",a[:60])
     new=new.replace(a,b)
-open('/tmp/dz/DESIGN.new.md','w').write(new)
+open('/verif/DESIGN.md','w').write(new)
 print(len(new.splitlines()))
